@@ -66,6 +66,20 @@ Proof.
   rewrite skipn_app, Nat.sub_diag, skipn_all. split; reflexivity.
 Qed.
 
+(* ---- how chunks reach a pipeline: write_chunk_in, call by call ------------------------------------- *)
+Lemma chunk_writes_concat c : concat (chunk_writes c) = ser_chunk c.
+Proof.
+  unfold chunk_writes, ser_chunk. destruct (cdata c) as [|b d]; cbn [concat app]; rewrite ?app_nil_r; reflexivity.
+Qed.
+Lemma chunks_writes_concat cs : concat (chunks_writes cs) = ser_chunks cs.
+Proof.
+  unfold chunks_writes, ser_chunks. induction cs as [|c cs IH]; [reflexivity|].
+  cbn [map concat]. rewrite concat_app, chunk_writes_concat, IH. reflexivity.
+Qed.
+(* the writes SolidEntryBuilder::add_entry / SolidArchive::add_entry make carry exactly the inner entries' bytes *)
+Lemma solid_writes_concat inner : concat (solid_writes inner) = solid_plain_stream inner.
+Proof. unfold solid_writes, solid_plain_stream. apply chunks_writes_concat. Qed.
+
 (* ================================================================================================= *)
 Section PipelineFacts.
 Variables E D : encryption -> bytes -> bytes -> bytes.
@@ -182,16 +196,21 @@ Qed.
 (* ================================================================================================= *)
 (* 1. contents                                                                                         *)
 (* ================================================================================================= *)
+(* `eff_wcuts`: what a directory builder is given is dropped (EntryBuilder::write without a data writer), so
+   the content of a directory entry is empty; for the other kinds eff_wcuts is the identity *)
 Theorem entry_roundtrip cfg ctx pw sp wcuts rbufs :
-  wf_ctx ctx pw -> concat wcuts = sp_content sp ->
-  Forall (fun n => 0 < n) rbufs -> covers (eff_cfg cfg (sp_kind sp)) wcuts rbufs ->
+  wf_ctx ctx pw -> concat (eff_wcuts (sp_kind sp) wcuts) = sp_content sp ->
+  Forall (fun n => 0 < n) rbufs -> covers (eff_cfg cfg (sp_kind sp)) (eff_wcuts (sp_kind sp) wcuts) rbufs ->
   decode_normal (build_normal cfg ctx sp wcuts) pw rbufs = Ok (sp_content sp).
 Proof.
   intros Hctx Hc Hpos Hcov. unfold Pipeline.decode_normal, Pipeline.build_normal. cbv zeta.
   cbn [n_hdr n_phsf n_data f_comp f_enc f_mode]. unfold Pipeline.build_data.
-  rewrite (stream_roundtrip _ ctx pw wcuts); try assumption; [rewrite Hc; reflexivity|].
+  rewrite (stream_roundtrip _ ctx pw (eff_wcuts (sp_kind sp) wcuts)); try assumption; [rewrite Hc; reflexivity|].
   unfold flat_sink. apply concat_filter_ne.
 Qed.
+
+Lemma eff_wcuts_file sp wcuts : sp_kind sp = KFile -> eff_wcuts (sp_kind sp) wcuts = wcuts.
+Proof. intros ->. reflexivity. Qed.
 
 (* ---- independence of the caller's slicing ------------------------------------------------------------ *)
 (* the compressed byte string depends on what was written, not on how the writes were sliced *)
@@ -242,9 +261,9 @@ Qed.
 (* two slicings of the same content, two sequences of buffer sizes: the same decoded bytes, and the built
    entries are equal except for where n_data is cut *)
 Theorem entry_roundtrip_indep_of_slicing cfg ctx pw sp w1 w2 r1 r2 :
-  wf_ctx ctx pw -> concat w1 = sp_content sp -> concat w2 = sp_content sp ->
+  wf_ctx ctx pw -> concat (eff_wcuts (sp_kind sp) w1) = sp_content sp -> concat (eff_wcuts (sp_kind sp) w2) = sp_content sp ->
   Forall (fun n => 0 < n) r1 -> Forall (fun n => 0 < n) r2 ->
-  covers (eff_cfg cfg (sp_kind sp)) w1 r1 -> covers (eff_cfg cfg (sp_kind sp)) w2 r2 ->
+  covers (eff_cfg cfg (sp_kind sp)) (eff_wcuts (sp_kind sp) w1) r1 -> covers (eff_cfg cfg (sp_kind sp)) (eff_wcuts (sp_kind sp) w2) r2 ->
   let e1 := build_normal cfg ctx sp w1 in let e2 := build_normal cfg ctx sp w2 in
   decode_normal e1 pw r1 = decode_normal e2 pw r2 /\
   n_hdr e1 = n_hdr e2 /\ n_phsf e1 = n_phsf e2 /\ n_extra e1 = n_extra e2 /\ n_meta e1 = n_meta e2 /\
@@ -256,7 +275,7 @@ Proof.
   { unfold Pipeline.build_normal. cbv zeta. cbn [n_data]. apply build_data_concat; [apply Hctx|congruence]. }
   repeat split; try exact Hd.
   unfold Pipeline.build_normal in *. cbv zeta in *. cbn [n_meta n_data] in *.
-  rewrite !sum_len_concat, Hd, H1, H2. reflexivity.
+  rewrite !sum_len_concat, Hd. destruct (sp_kind sp); cbn [eff_wcuts] in H1, H2; [rewrite H1, H2|..]; reflexivity.
 Qed.
 
 (* ================================================================================================= *)
@@ -270,7 +289,7 @@ Definition wf_spec (sp : spec) : Prop :=
   opt_all wf_perm (sp_perm sp) /\ Forall wf_xattr (sp_xattrs sp) /\
   Forall (fun c => is_known c = false) (sp_extra sp).
 
-Lemma build_wf_normal cfg ctx pw sp wcuts : wf_spec sp -> wf_ctx ctx pw -> concat wcuts = sp_content sp ->
+Lemma build_wf_normal cfg ctx pw sp wcuts : wf_spec sp -> wf_ctx ctx pw -> concat (eff_wcuts (sp_kind sp) wcuts) = sp_content sp ->
   wf_normal (build_normal cfg ctx sp wcuts).
 Proof.
   intros (S1 & S2 & S3 & S4 & S5 & S6 & S7 & S8 & S9) (_ & _ & Hu) Hc.
@@ -278,7 +297,7 @@ Proof.
   cbn [n_hdr n_phsf n_extra n_data n_meta n_xattrs f_major f_minor f_name m_raw_size m_compressed m_ctime m_mtime m_atime m_perm].
   repeat (split; [first [assumption | reflexivity | lia | idtac]|]); try assumption.
   - unfold phsf_part. destruct (encrypted _); cbn [opt_all]; [exact Hu|exact I].
-  - destruct (sp_kind sp); cbn [opt_all]; try exact I. rewrite Hc. exact S3.
+  - destruct (sp_kind sp); cbn [opt_all]; try exact I. cbn [eff_wcuts] in Hc. rewrite Hc. exact S3.
 Qed.
 
 Lemma filter_id {A} (f : A -> bool) l : Forall (fun x => f x = true) l -> filter f l = l.
@@ -303,7 +322,7 @@ Proof.
   rewrite (filter_id nonempty) by (eapply build_data_nonempty; exact Hctx). reflexivity.
 Qed.
 
-Theorem metadata_roundtrip cfg ctx pw sp wcuts : wf_spec sp -> wf_ctx ctx pw -> concat wcuts = sp_content sp ->
+Theorem metadata_roundtrip cfg ctx pw sp wcuts : wf_spec sp -> wf_ctx ctx pw -> concat (eff_wcuts (sp_kind sp) wcuts) = sp_content sp ->
   let e := build_normal cfg ctx sp wcuts in
   parse_normal (ser_normal e) = Ok (normalize e) /\ normalize e = e /\
   f_name (n_hdr e) = sp_name sp /\ f_kind (n_hdr e) = sp_kind sp /\
@@ -314,7 +333,9 @@ Theorem metadata_roundtrip cfg ctx pw sp wcuts : wf_spec sp -> wf_ctx ctx pw -> 
 Proof.
   intros Hs Hctx Hc e. split; [apply parse_ser_wf, (build_wf_normal cfg ctx pw); assumption|].
   split; [apply (normalize_build cfg ctx pw); assumption|].
-  subst e. unfold Pipeline.build_normal. cbv zeta. cbn. rewrite Hc. repeat split.
+  subst e. unfold Pipeline.build_normal. cbv zeta.
+  cbn [n_hdr n_meta n_xattrs n_extra n_data f_name f_kind m_ctime m_mtime m_atime m_perm m_raw_size m_compressed].
+  repeat split. destruct (sp_kind sp); try reflexivity. cbn [eff_wcuts] in Hc. rewrite Hc. reflexivity.
 Qed.
 
 (* ================================================================================================= *)
@@ -413,7 +434,8 @@ Qed.
 Record job := { j_cfg : config; j_ctx : cctx; j_spec : spec; j_wcuts : list bytes }.
 Definition build_job (j : job) : normal_entry := build_normal (j_cfg j) (j_ctx j) (j_spec j) (j_wcuts j).
 Definition wf_job (pw : bytes) (j : job) : Prop :=
-  wf_spec (j_spec j) /\ wf_ctx (j_ctx j) pw /\ concat (j_wcuts j) = sp_content (j_spec j) /\ fits (build_job j).
+  wf_spec (j_spec j) /\ wf_ctx (j_ctx j) pw /\
+  concat (eff_wcuts (sp_kind (j_spec j)) (j_wcuts j)) = sp_content (j_spec j) /\ fits (build_job j).
 
 Theorem archive_roundtrip pw jobs : Forall (wf_job pw) jobs ->
   read_archive (write_archive (map build_job jobs)) = Ok (map (fun j => RNormal (build_job j)) jobs).
@@ -433,7 +455,7 @@ Theorem roundtrip pw jobs : Forall (wf_job pw) jobs ->
   read_archive (write_archive (map build_job jobs)) = Ok (map (fun j => RNormal (build_job j)) jobs) /\
   forall j, In j jobs ->
     (forall rbufs, Forall (fun n => 0 < n) rbufs ->
-       covers (eff_cfg (j_cfg j) (sp_kind (j_spec j))) (j_wcuts j) rbufs ->
+       covers (eff_cfg (j_cfg j) (sp_kind (j_spec j))) (eff_wcuts (sp_kind (j_spec j)) (j_wcuts j)) rbufs ->
        decode_normal (build_job j) pw rbufs = Ok (sp_content (j_spec j))) /\
     f_name (n_hdr (build_job j)) = sp_name (j_spec j) /\ f_kind (n_hdr (build_job j)) = sp_kind (j_spec j) /\
     m_ctime (n_meta (build_job j)) = sp_ctime (j_spec j) /\ m_mtime (n_meta (build_job j)) = sp_mtime (j_spec j) /\
@@ -606,7 +628,7 @@ Theorem solid_roundtrip_jobs cfg ctx pw extra jobs swcuts rbufs :
   Forall (fun n => 0 < n) rbufs -> covers cfg swcuts rbufs ->
   decode_solid (build_solid cfg ctx extra swcuts) pw rbufs = Ok (map build_job jobs, FinOk) /\
   forall j, In j jobs -> forall rb, Forall (fun n => 0 < n) rb ->
-    covers (eff_cfg (j_cfg j) (sp_kind (j_spec j))) (j_wcuts j) rb ->
+    covers (eff_cfg (j_cfg j) (sp_kind (j_spec j))) (eff_wcuts (sp_kind (j_spec j)) (j_wcuts j)) rb ->
     decode_normal (build_job j) pw rb = Ok (sp_content (j_spec j)).
 Proof.
   intros Hctx Hj Hc Hp Hcov. split.
@@ -650,6 +672,25 @@ Proof.
   rewrite (stream_roundtrip cfg ctx pw swcuts); try assumption; [|reflexivity].
   cbn [bind]. rewrite Hc. rewrite inner_loop_entries; try assumption; [reflexivity|].
   pose proof (solid_stream_length inner). lia.
+Qed.
+
+(* the two solid writers as the code drives them: the inner entries arrive through write_chunk_in, one write per
+   length / type / payload / CRC field (Pipeline.solid_writes) *)
+Theorem solid_builder_roundtrip cfg ctx pw extra inner rbufs :
+  wf_ctx ctx pw -> Forall wf_normal inner -> Forall fits inner ->
+  Forall (fun n => 0 < n) rbufs -> covers cfg (solid_writes inner) rbufs ->
+  decode_solid (build_solid cfg ctx extra (solid_writes inner)) pw rbufs = Ok (map normalize inner, FinOk).
+Proof.
+  intros Hctx Hw Hf Hp Hcov. apply solid_roundtrip; try assumption. apply solid_writes_concat.
+Qed.
+
+Theorem solid_archive_add_entry_roundtrip cfg ctx pw inner rbufs :
+  wf_ctx ctx pw -> Forall wf_normal inner -> Forall fits inner ->
+  Forall (fun n => 0 < n) rbufs -> covers cfg (solid_writes inner) rbufs ->
+  exists s, parse_solid (solid_archive_chunks cfg ctx (solid_writes inner)) = Ok s /\
+            decode_solid s pw rbufs = Ok (map normalize inner, FinOk).
+Proof.
+  intros Hctx Hw Hf Hp Hcov. apply solid_archive_roundtrip; try assumption. apply solid_writes_concat.
 Qed.
 
 (* a built solid entry survives the archive: add_entry, then entries() *)
